@@ -12,7 +12,7 @@ CLAIM = ("Proved in Coq for the model (Formats/): a record that is handed to n o
          "field; built loggers with file + additional writer + stderr duplicate, LF/CRLF, Direct/buffered, recursive logging from a "
          "Display implementation (inner records first, once per output that formats the outer record); with the clock advancing on "
          "every read, all outputs of a record must show the same time stamp (oracle on the implementation).")
-THEOREMS = ["C20_frame", "C20_text", "C20_one_timestamp"]
+THEOREMS = ["C20_frame", "C20_text", "C20_one_timestamp", "C20_json_roundtrip", "C20_json_single_line"]
 TRUSTED = ["modelled, not verified: chrono's formatting of %Y-%m-%d %H:%M:%S%.6f %:z, nu_ansi_term's escape sequences for the default "
            "palette, serde_json's field order and escaping (all compared byte for byte); the thread name is an input"]
 ASSUMPTIONS = ["default palette", "key-value pairs are not generated (kv feature enabled, no pairs)",
